@@ -962,6 +962,13 @@ func (s *Store) monitorLeaseAsPrimary(ctx context.Context, lease Lease) error {
 	demoteCh := s.demoteCh
 	s.mu.Unlock()
 
+	// A halt lock this node acquired from the previous primary is void now.
+	// Keeping it would forward this node's own commits to a primary that
+	// does not exist.
+	for _, db := range s.DBs() {
+		db.remoteHaltLock.Store((*HaltLock)(nil))
+	}
+
 	// Mark store as ready if we've obtained primary status.
 	s.markReady()
 
